@@ -7,7 +7,7 @@
   rejects (rather than answers) a conditioning event that is itself impossible.
 
   Everything below is about the executable model `Y0.Cf.idcStar` (Y0/Model/IdcStar.lean: the code after the three
-  `fix:` commits listed in known_findings.jsonl), which the correspondence check (harness/props/c08.py) compares with
+  `fix:` commits to idc_star.py and the `fix:` f502ca2 to `Expression.conditional` listed in known_findings.jsonl), which the correspondence check (harness/props/c08.py) compares with
   the real `idc_star` on every run under every iteration order of the sets the Python iterates over.
 
   PROVED (all graphs, events, fuels, iteration orders):
@@ -26,7 +26,7 @@
   --   theorem idcstar_sound : idcStar ordf dordf kordf G outs conds = .ok e → e ≠ .zero → M.Compatible G →
   --       EventWF M (outs ++ conds) → ν.Distinct → 0 < probEvent M ν conds →
   --       den M ν (outs ++ conds) e = probEvent M ν (outs ++ conds) / probEvent M ν conds
-  --     planned reduction (DESIGN §4 C08): `conditional_den` (C13; false today: F11) + `idstar_sound` (C07; false today: F10)
+  --     planned reduction (DESIGN §4 C08): `conditional_den_spec_observational` (C13; F11 is repaired for subscripts, the bound-range part is open) + `idstar_sound` (C07; false today: F10)
   --     + soundness of the exchange step (rule 2 of the do-calculus on the counterfactual graph, via d-separation C04).
   --   theorem idcstar_zero_sound : idcStar … = .ok .zero → … → probEvent M ν (outs ++ conds) = 0
   --     proved for Zero from line 3 (`idcstar_zero_line3_sound`) and for Zero coming from ID*'s lines 2 and 5 (C07); Zero from
